@@ -12,6 +12,7 @@ RULE = ("CEM (cem_step driven from Python and jitted cem()) and evosax strategie
         "finite loss evaluated so far, the best candidate is an evaluated candidate attaining it, NaN never elite/best while a finite "
         "candidate exists, CEM's next mean is the smoothed mean of the lowest-loss elites; one evaluation = one solver generation; "
         "non-trivial = generation containing both NaN and finite losses or ties; distinct by configuration digest x generation")
+RULE += ' Built later: two-leaf parameter trees; optimum on or beyond the bounds.'
 MIN_NONTRIVIAL = {"quick": 150, "thorough": 4000}
 DECIDING = ["generations_checked", "candidates_checked"]
 ASSUMPTIONS = ["jax.debug.callback inside the vmapped loss is called once per candidate", "elite-mean clause is skipped when the elite boundary falls on a loss tie"]
